@@ -16,5 +16,12 @@ for mf in sorted(glob.glob(os.path.join(os.path.dirname(os.path.abspath(__file__
         return "concrete replay"
     cells = "; ".join("%s: %s" % (k, kind(v)) for k, v in caught.items())
     rows.append("| seeded/%s | %s | %s | %s |" % (m["id"], ", ".join(m["breaks"]), m["change"].replace("|", "\\|")[:170], cells))
-print("| change | breaks | what it does | checks run against it -> outcome |\n|---|---|---|---|")
-print("\n".join(rows))
+table = "| change | breaks | what it does | checks run against it -> outcome |\n|---|---|---|---|\n" + "\n".join(rows)
+import sys
+if "--update" in sys.argv:
+    d = os.path.join(os.path.dirname(os.path.abspath(__file__)), "..", "DESIGN.md")
+    s = open(d).read()
+    a, b = s.index("<!-- seeded-table -->"), s.index("<!-- /seeded-table -->")
+    open(d, "w").write(s[:a] + "<!-- seeded-table -->\n" + table + "\n" + s[b:])
+else:
+    print(table)
